@@ -361,7 +361,7 @@ pub fn run(rep: &mut Report) {
     // N-bit format plus ONE bit exactly 64 places below the leading bit shows it
     rep.generated(
         "Q32E2 accumulator (tie-directed histories: threshold of the N-bit format + one distant sticky term at a drawn depth) -> PxE2<N>, all N",
-        tier.pick(120_000, 2_000_000),
+        tier.pick(250_000, 2_000_000),
         || (2u32..=32).prop_flat_map(|n| (Just(n), super::quire::tie_history_w::<P32E2>(n))),
         |(n, (steps, _)), l| from_quire_dispatch(*n, steps, l),
     );
